@@ -63,10 +63,22 @@ Definition dump_text (chunks : list str) : str := concat chunks.
 (* TemplateModule.__str__ : concat(self._body_stream) with _body_stream = list(root(ctx)) *)
 Definition module_str (pieces : list str) : str := concat pieces.
 
-(* dump with an encoding: each chunk is encoded separately and written. *)
+(* dump with an encoding (after the fix: commit): ONE incremental encoder for the whole stream;
+   each chunk is fed to it in turn, then the encoder is flushed (encode("", final=True)).
+   The encoder is an abstract state machine: [feed st c] gives the new state and the bytes
+   emitted for c, [flush st] the bytes emitted at the end. *)
 Section Enc.
-  Variable B : Type.
-  Variable enc : str -> list B.
-  Fixpoint dump_enc (chunks : list str) : list B :=
-    match chunks with [] => [] | c :: r => enc c ++ dump_enc r end.
+  Variables (B St : Type).
+  Variable feed : St -> str -> St * list B.
+  Variable flush : St -> list B.
+  Fixpoint dump_feed (st : St) (chunks : list str) : St * list B :=
+    match chunks with
+    | [] => (st, [])
+    | c :: r => let '(st1, x) := feed st c in let '(st2, y) := dump_feed st1 r in (st2, x ++ y)
+    end.
+  Definition dump_enc (st0 : St) (chunks : list str) : list B :=
+    let '(st, x) := dump_feed st0 chunks in x ++ flush st.
+  (* encoding a whole text with a fresh encoder *)
+  Definition encode_all (st0 : St) (text : str) : list B :=
+    let '(st, x) := feed st0 text in x ++ flush st.
 End Enc.
